@@ -174,8 +174,8 @@ class C19(Property):
         "failures after validation (other exception classes) are not judged here, only counted",
         "a static output is only combined with static or pull-type inputs directly (time adapters on static data are outside the domain)",
     )
-    cases = {"quick": 12000, "thorough": 150000}
-    min_nontrivial = {"quick": 4000, "thorough": 30000}
+    cases = {"quick": 12000, "thorough": 1000000}
+    min_nontrivial = {"quick": 4000, "thorough": 200000}
 
     def gen(self, rnd, i, tier):
         nprod = rnd.choice([1, 1, 2])
